@@ -475,6 +475,12 @@ func convStructToTarget(source interface{}, target reflect.Type) (interface{}, e
 
 func convMapToTarget(source interface{}, target reflect.Type) (interface{}, error) {
 	st := reflect.TypeOf(source)
+	if st == nil {
+		return nil, nil
+	}
+	if st.Kind() != reflect.Map {
+		return nil, fmt.Errorf("can't conv type %T to map", source)
+	}
 	if st.Key() != target.Key() {
 		return nil, fmt.Errorf("convMapToTarget error map key type %T != %T", st.Key(), target.Key())
 	}
@@ -489,7 +495,11 @@ func convMapToTarget(source interface{}, target reflect.Type) (interface{}, erro
 		if err != nil {
 			return nil, err
 		}
-		result.SetMapIndex(k, reflect.ValueOf(evalue))
+		if evalue == nil {
+			result.SetMapIndex(k, reflect.Zero(target.Elem()))
+		} else {
+			result.SetMapIndex(k, reflect.ValueOf(evalue))
+		}
 	}
 	return result.Interface(), nil
 }
